@@ -136,7 +136,7 @@ func runPost53(payload []byte) string {
 		ctx, cancel := context.WithTimeout(context.Background(), 2*time.Second)
 		defer cancel()
 		buf := make([]byte, 65535)
-		ctx2, cancel2 := context.WithTimeout(ctx, 150*time.Millisecond)
+		ctx2, cancel2 := context.WithTimeout(ctx, 50*time.Millisecond)
 		defer cancel2()
 		_, _, err := s.res.Resolve(ctx2, q, buf)
 		s.mu.Lock()
